@@ -1697,6 +1697,11 @@ def c12(prop, tier, seed, work):
     if len(cres) < 3:
         raise Inconclusive("cancel / shutdown scenarios failed:\n" + out[-2000:])
     for r in cres:
+        if r["k"] == "closeticker":
+            if not r["ok"]:
+                path = vlib.save_replay(prop, "closeticker-" + r["store"], {"property": prop, "kind": "locks", "mode": "cancel", "result": r})
+                violations.append((path, "close scenario: %s" % r["note"]))
+            continue
         if r["k"] == "shutdown":
             if not r["built"]:
                 raise Inconclusive("shutdown scenario: %s (the scenario no longer builds the situation)" % r["note"])
@@ -1721,7 +1726,7 @@ def c12(prop, tier, seed, work):
                    "abandoned / cancelled / evicted / expired sessions, manifests, mounts, collections and Close runs on dir and mem with a session limit, a short grace period and the collection "
                    "ticker; each goroutine segment that blocks while holding something becomes a thread program of spec/Locks.tla; TLC runs all pairs (thorough: triples) in every interleaving and "
                    "reports blocked states; the same scripts then run from 10 goroutines at once, plainly and with delays at the edges of every predicted cycle: a request, collection or Close that "
-                   "does not return within 5 s is a hang (verdicts only from these real executions); a cancelled request waiting for a collection must return; Shutdown of a listening server with rate limiting must return when the one accepted request, held right before the rate limiter, is let go",
+                   "does not return within 5 s is a hang (verdicts only from these real executions); a cancelled request waiting for a collection (queued behind a request without a deadline that waits for the same collection) must return; Close of 300 servers per store whose collection ticker runs every millisecond, at a random moment of the tick, must return; Shutdown of a listening server with rate limiting must return when the one accepted request, held right before the rate limiter, is let go",
            "samples": [{"name": p["name"][:80], "ops": ["%s %s" % (o["op"], o["class"]) for o in p["ops"][:10]]} for p in progs[:2]],
            "known_findings_reported": sorted(klines), "exhaustive": False, "failures": [v[1] for v in violations][:10]}
     vlib.write_evidence(prop, tier, seed, "model_checking", cov, ASSUME_COMMON[:2] + [
